@@ -249,6 +249,31 @@ class C02Rig:
         c = Client()
         c.connect(self.addr)
         try:
+            pre_obs = None
+            pre = case.get("prelude")
+            if pre:
+                # an EARLIER connection of the same Client object: operations on it, then the connection is lost
+                # without disconnect() (the manager closes it: a frame declaring a negative size; the client learns
+                # of it from read_message), then connect() again - the case proper starts on the new connection
+                for op in pre["ops"]:
+                    try:
+                        self.apply(c, op)
+                    except Exception:  # noqa
+                        pass
+                h = HDR()
+                h.msg_type, h.num_data_bytes, h.src_mod_id = 4321, -1, c.module_id
+                c.sock.sendall(bytes(h))
+                try:
+                    for _ in range(40):
+                        c.read_message(timeout=0.2)
+                    lost = "no-error"
+                except pyrtma.exceptions.ConnectionLost:
+                    lost = "ConnectionLost"
+                except Exception as e:  # noqa
+                    lost = type(e).__name__
+                c.connect(self.addr)
+                pre_obs = self.obs(c, None)
+                pre_obs["lost"] = lost
             steps = []
             for op in case["ops"]:
                 exc = None
@@ -273,7 +298,7 @@ class C02Rig:
                     except Exception as e:  # noqa
                         ctx["exit_exc"] = type(e).__name__
                 ctx["after"] = self.obs(c, None)
-            return dict(steps=steps, ctx=ctx)
+            return dict(steps=steps, ctx=ctx, prelude=pre_obs)
         finally:
             drop_client(c)
 
